@@ -299,13 +299,15 @@ def std_labels(out, m):
         out.label(k, v)
 
 
-def full_script(sc, k, m, cfg, rnd, n_hist=4, n_pairs=10, n_strings=24, limit=24, ref=False, sweep=True):
+def full_script(sc, k, m, cfg, rnd, n_hist=4, n_pairs=10, n_strings=24, limit=24, ref=False, sweep=True, value_filter=None):
     """Moderate script over every item the configuration enables (used by the cross-configuration
     properties: C02, C09, C10, C16, C18). Lines are a pure function of (m, enabled items, rnd)."""
     idxs = pick_idxs(m, rnd, limit)
     sc_cast(sc, k, m, idxs[:8])
     sc_into(sc, k, m, cfg, idxs)
     ns = boundary_values(m, rnd)
+    if value_filter is not None:
+        ns = [x for x in ns if value_filter(x)]
     if len(ns) > 40:
         ns = sorted(set(rnd.sample(ns, 40)) | {m.min, m.max})
     sc_try_from(sc, k, m, cfg, ns, sweep=sweep)
@@ -339,3 +341,78 @@ def script_for_modules(m, cfgs, rnd_seed, **kw):
     for k, cfg in enumerate(cfgs):
         full_script(sc, k, m, cfg, _r.Random(rnd_seed), **kw)
     return sc
+
+
+# ---------------------------------------------------------------------------------------------
+# model of the auto resolver (steering and labels only - never an oracle; DESIGN Appendix C)
+
+def predict_modes(m, cfg):
+    en = lambda f: E.enabled(cfg, f)
+    md = lambda f: E.param(E.feat(cfg, f), "mode") or "auto"
+    as_str_on = en("as_str") or en("Debug") or en("Display") or en("IntoStr")
+    as_mode = md("as_str") if en("as_str") else "auto"
+    table_name = en("names") or (as_str_on and as_mode == "table") or (en("from_str") and md("from_str") == "table") or \
+        (en("FromStr") and md("FromStr") == "table")
+    table_enum = (en("iter") and md("iter") == "table") or ((not m.gapless) and ((en("from_str") and md("from_str") == "table") or
+                                                                               (en("FromStr") and md("FromStr") == "table")))
+    autos = sum([as_str_on and as_mode == "auto", en("FromStr") and md("FromStr") == "auto", en("from_str") and md("from_str") == "auto"])
+    if autos > 1:
+        table_name = True
+    res = {}
+    if as_str_on:
+        res["as_str"] = ("table" if table_name else "match") if as_mode == "auto" else as_mode
+    for f in ("from_str", "FromStr"):
+        if en(f):
+            res[f] = ("table" if table_name else "match") if md(f) == "auto" else md(f)
+    if en("iter"):
+        if md("iter") != "auto":
+            res["iter"] = md("iter")
+        elif m.gapless:
+            res["iter"] = "range"
+        elif table_enum:
+            res["iter"] = "table"
+        elif m.n * M.guessed_size(m.repr) <= 8 and not en("range"):
+            res["iter"] = "table_inline"
+        else:
+            res["iter"] = "next_and_back"
+    return res
+
+
+def differential(out, sc, obs, what="configurations"):
+    """Group observed lines by (command, args) across modules; every group must be a single value."""
+    if obs is None:
+        return 0
+    groups = {}
+    for line, o in zip(sc.lines, obs):
+        k, rest = line.split(" ", 1)
+        groups.setdefault(rest, []).append((int(k), o))
+    compared = 0
+    for rest, lst in groups.items():
+        if len(lst) < 2:
+            continue
+        compared += 1
+        vals = {o for _k, o in lst}
+        if len(vals) > 1:
+            out.violate("the same call gives different results under different %s" % what, call=rest,
+                        results=[{"module": k, "observed": o[:300]} for k, o in lst])
+    return compared
+
+
+INDEX_ARGS = {"cast": 1, "into": 1, "Into": 1, "Into_m": 1, "as_str": 1, "Display": 1, "Display_ts": 1, "Debug": 1,
+              "IntoStr": 1, "next": 1, "next_back": 1, "walk": 1, "walk_back": 1, "range": 2, "ref_range": 2}
+
+
+def translate_script(sc, k_from, k_to, index_map):
+    """Copy module k_from's lines to module k_to, mapping declaration indexes (same variants, other order)."""
+    n = len(sc.lines)
+    for i in range(n):
+        parts = sc.lines[i].split(" ")
+        if int(parts[0]) != k_from:
+            continue
+        cmd = parts[1]
+        args = parts[2:]
+        for j in range(INDEX_ARGS.get(cmd, 0)):
+            args[j] = str(index_map[int(args[j])])
+        sc.lines.append(" ".join([str(k_to), cmd] + args))
+        sc.expected.append(sc.expected[i])
+        sc.tags.append(sc.tags[i])
